@@ -545,7 +545,7 @@ func init() {
 	Register(&Engine{
 		Prop: "C10", Name: "cachesim", Run: runC10,
 		Trials: map[string]int{"quick": 50000, "thorough": 500000},
-		Rule:   "a drawn source tree on a real mem.FS (file sizes around the 512-byte copy buffer: 0,1,511,512,513,1024,1500,2000,4096), a drawn RetainData policy (always/never/by name/by size), a cache store that is a full mem.FS or one exposing only OpenFile+Mkdir (file handles exposing only Write), the source behind a counting wrapper that injects no error but may serve reads in legal odd shapes (half buffers, single bytes, last bytes together with io.EOF), the copy buffer size as a knob in half of the trials; one task issues 3-16 drawn Open/Stat/Read/Seek/ReadDir(n)/handle-Stat/Close calls on the cache, mirrored on handles opened directly on the source; judged: same outcome, names, kinds, sizes, modes, bytes, EOF; no further source Open/Read of a retained file after its first successful open; distinct = event-log hash",
+		Rule:   "a drawn source tree on a real mem.FS (file sizes around the 512-byte copy buffer: 0,1,511,512,513,1024,1500,2000,4096), a drawn RetainData policy (always/never/by name/by size), a cache store that is a full mem.FS or one exposing only OpenFile+Mkdir (file handles exposing only Write), the source behind a counting wrapper that injects no error but may serve reads in legal odd shapes (half buffers, single bytes, last bytes together with io.EOF), the copy buffer size as a knob in half of the trials; one task issues 3-16 drawn Open/Stat/Read/Seek/ReadDir(n)/handle-Stat/Close calls on the cache, mirrored on handles opened directly on the source; judged: same outcome, names, kinds, sizes, modes, bytes, EOF; no further source Open/Read of a retained file after its first successful open; distinct = event-log hash One source in four has files that cannot seek (the cache must hand out a handle from its store); one trial in six starts with a fill that failed before the compared sequence; directory pages are scribbled over after use.",
 		Components: map[string][]string{
 			"real": {"cache.ReadOnlyFS, cache dir handle", "internal/pathlock", "mem.FS as source and as cache store", "package helpers (MkdirAll fallback on the minimal store)"},
 			"stub": {"counting/read-shaping wrapper around the source", "capability mask around the cache store"},
